@@ -177,6 +177,40 @@ theorem child_quad_mem (n o s d : Nat) (hn : n + 2 ≤ 30) (hs : s < 4 ^ (n + 1)
   rewrite [adjustS_child _ (n + 1) s d hs hd, finalAnchor_quad]
   exact List.mem_map.2 ⟨_, internal_quad_mem _ n _ hs' (by split <;> omega) _ _, rfl⟩
 
+/-- **one step, public `s_to_anchor`, all four children at once.**  The parent anchor and the list `kids` of the four
+child anchors exist, and there is one of the finitely many `finalFamilies` each of whose four quads is the quad of the
+parent with one of the kids (in curve order, or in reversed order for the reversing orientations). -/
+theorem children_family_mem (n o s : Nat) (hn : n + 2 ≤ 30) (hs : s < 4 ^ (n + 1)) :
+    ∃ ap, sToAnchor s (n + 1) o = .ok ap ∧ IsFlip ap.flips ∧ ∃ kids : List Anchor, kids.length = 4 ∧
+      (∀ d, d < 4 → sToAnchor (4 * s + d) (n + 2) o = .ok (kids.getD d default)) ∧ (∀ ac ∈ kids, IsFlip ac.flips) ∧
+      ∃ fam ∈ finalFamilies (oriInvertJ o) (oriFlipIJ o), ∀ q ∈ fam, ∃ ac ∈ kids, anchorQuad ap ac = q := by
+  have hs' := adjustS_lt (oriReverse o) (n + 1) s hs
+  refine ⟨_, sToAnchor_eq s (n + 1) o (by omega) hs, finalAnchor_isFlip _ (n + 1) _ _ hs',
+    (List.range 4).map (fun d => finalAnchor (adjustS (oriReverse o) (n + 2) (4 * s + d)) (n + 2) (oriInvertJ o) (oriFlipIJ o)),
+    by simp, ?_, ?_, ?_⟩
+  · intro d hd
+    rewrite [sToAnchor_eq (4 * s + d) (n + 2) o hn (child_lt s (n + 1) d hs hd)]
+    have hc : d = 0 ∨ d = 1 ∨ d = 2 ∨ d = 3 := by omega
+    rcases hc with rfl | rfl | rfl | rfl <;> rfl
+  · intro ac hac
+    obtain ⟨d, hd, rfl⟩ := List.mem_map.1 hac
+    have hd := List.mem_range.1 hd
+    exact finalAnchor_isFlip _ (n + 2) _ _ (adjustS_lt _ (n + 2) _ (child_lt s (n + 1) d hs hd))
+  · refine ⟨((List.range 4).map (fun d => internalQuad (adjustS (oriReverse o) (n + 1) s) (n + 1) d (oriInvertJ o) (oriFlipIJ o))).map
+        (finalQuad (oriInvertJ o) (oriFlipIJ o)), List.mem_map.2 ⟨_, internal_family_mem _ n hs' _ _, rfl⟩, ?_⟩
+    intro q hq
+    obtain ⟨q0, hq0, rfl⟩ := List.mem_map.1 hq
+    obtain ⟨j, hj, rfl⟩ := List.mem_map.1 hq0
+    have hj := List.mem_range.1 hj
+    refine ⟨_, List.mem_map.2 ⟨if oriReverse o then 3 - j else j, List.mem_range.2 (by split <;> omega), rfl⟩, ?_⟩
+    rewrite [adjustS_child _ (n + 1) s _ hs (by split <;> omega)]
+    have e : (if oriReverse o = true then 3 - (if oriReverse o = true then 3 - j else j) else
+        (if oriReverse o = true then 3 - j else j)) = j := by
+      cases oriReverse o <;> simp only [if_true, if_false, Bool.false_eq_true]
+      omega
+    rewrite [e]
+    exact finalAnchor_quad _ (n + 1) j _ _
+
 /-! ## the planar centre offset, from the table entry alone -/
 
 /-- `needsReflect` as a function of `k` and the flips (it does not look at the offset) -/
@@ -258,7 +292,65 @@ theorem child_centre_reach (n o s d : Nat) (hn : n + 2 ≤ 30) (ho : o < 6) (hs 
   have hpos : 0 < pentArea := by
     have := seed_area_facts.1
     unfold pentArea; linarith
+  refine ⟨ap, ac, h1, h2, ?_⟩
   rewrite [e, ha]
   exact ⟨hr, by linarith⟩
+
+/-- non-vacuity / sharpness on a concrete cell, evaluated independently of the table: orientation 0, parent position 1
+at depth 1, child `4·1 + 3 = 7` at depth 2: the ratio `dist² / area` exceeds `0.4212` (distance `> 0.6489·√area`) -/
+example : sToAnchor 1 1 0 = .ok ⟨1, (1, 0), (1, -1)⟩ ∧ sToAnchor 7 2 0 = .ok ⟨2, (0, 1), (1, 1)⟩ ∧
+    4212 / 10000 * (areaG 0 (pentagonQ ⟨1, (1, 0), (1, -1)⟩) / 2) < centreDistSq ⟨1, (1, 0), (1, -1)⟩ ⟨2, (0, 1), (1, 1)⟩ ∧
+    centreDistSq ⟨1, (1, 0), (1, -1)⟩ ⟨2, (0, 1), (1, 1)⟩ < 4213 / 10000 * (areaG 0 (pentagonQ ⟨1, (1, 0), (1, -1)⟩) / 2) := by
+  decide +kernel
+
+/-- the theorem instantiated at a reversing, inverting orientation (4), depth 2 → 3 -/
+example : ∃ ap ac, sToAnchor 11 2 4 = .ok ap ∧ sToAnchor 46 3 4 = .ok ac ∧
+    centreDistSq ap ac < 64 / 100 * (areaG 0 (pentagonQ ap) / 2) := by
+  obtain ⟨ap, ac, h1, h2, _, h4⟩ := child_centre_reach 1 4 11 2 (by decide) (by decide) (by decide) (by decide)
+  exact ⟨ap, ac, h1, h2, h4⟩
+
+/-! ## depth 0 → 1: the parent is the quintant triangle
+
+The cell of curve depth 0 (resolution 1) is not drawn by `get_pentagon_vertices` but is the quintant triangle
+`(u, v, w)` (`get_quintant_vertices`); its centre is the mean of the three vertices.  (Taking instead the pentagon of the
+depth-0 anchor `⟨0, (0,0), (1,1)⟩` as "parent" the ratio would be 0.917: the bound 0.8 does NOT hold for that fictitious
+parent, see `root_pentagon_reach_fails`.) -/
+
+def quintantTriQ : List (ℚ × ℚ) := [ratPair Gen.Runtime.U, ratPair Gen.Runtime.V, ratPair Gen.Runtime.W]
+
+/-- `x = .ok a` with `P a`, decidably -/
+def OkSat {α : Type} (x : Outcome α) (P : α → Prop) : Prop :=
+  match x with
+  | .ok a => P a
+  | _ => False
+
+instance {α : Type} (x : Outcome α) (P : α → Prop) [DecidablePred P] : Decidable (OkSat x P) := by
+  unfold OkSat; split <;> infer_instance
+
+theorem OkSat.elim {α : Type} {x : Outcome α} {P : α → Prop} (h : OkSat x P) : ∃ a, x = .ok a ∧ P a := by
+  unfold OkSat at h
+  split at h
+  · exact ⟨_, rfl, h⟩
+  · exact h.elim
+
+/-- squared distance between a depth-1 child's centre (scaled by 1/2) and the centre of the quintant triangle -/
+def rootDistSq (ac : Anchor) : ℚ :=
+  ((centreQ ac).1 / 2 - (centreG 0 3 quintantTriQ).1) * ((centreQ ac).1 / 2 - (centreG 0 3 quintantTriQ).1) +
+    ((centreQ ac).2 / 2 - (centreG 0 3 quintantTriQ).2) * ((centreQ ac).2 / 2 - (centreG 0 3 quintantTriQ).2)
+
+theorem root_reach_table : ∀ o ∈ List.range 6, ∀ d ∈ List.range 4,
+    OkSat (sToAnchor d 1 o) (fun ac => rootDistSq ac < 3773 / 10000 * (areaG 0 quintantTriQ / 2)) := by decide +kernel
+
+/-- **T-reach, depth 0 → 1** (the parent is the quintant triangle): distance `< 0.6143·√area` (`0.6143² > 0.3773`). -/
+theorem root_centre_reach (o d : Nat) (ho : o < 6) (hd : d < 4) :
+    ∃ ac, sToAnchor (4 * 0 + d) 1 o = .ok ac ∧ rootDistSq ac < 3773 / 10000 * (areaG 0 quintantTriQ / 2) := by
+  rewrite [show 4 * 0 + d = d by omega]
+  exact (root_reach_table o (List.mem_range.2 ho) d (List.mem_range.2 hd)).elim
+
+/-- the pentagon of the depth-0 anchor is NOT the shape of the depth-0 cell, and the reach bound fails for it:
+child 2 of orientation 0 is `> 0.9·√area` away from its centre -/
+theorem root_pentagon_reach_fails : sToAnchor 0 0 0 = .ok ⟨0, (0, 0), (1, 1)⟩ ∧ sToAnchor 2 1 0 = .ok ⟨2, (0, 1), (1, 1)⟩ ∧
+    81 / 100 * (areaG 0 (pentagonQ ⟨0, (0, 0), (1, 1)⟩) / 2) < centreDistSq ⟨0, (0, 0), (1, 1)⟩ ⟨2, (0, 1), (1, 1)⟩ := by
+  decide +kernel
 
 end A5.CP
